@@ -33,7 +33,7 @@ type C14Scenario struct {
 }
 
 var c14Kinds = []string{"shell", "shell", "shell", "health", "badkey", "badpw", "nochannel", "noshell", "twoshells", "twochannels",
-	"unknownreq", "resetkex", "resetauth", "resetmid", "bgschedule", "bgcontinuous", "directtcpip", "ptyreq"}
+	"unknownreq", "resetkex", "resetauth", "resetmid", "bgschedule", "bgcontinuous", "directtcpip", "ptyreq", "reqburst", "shellreqs"}
 
 func c14Gen(r *Rand, tier string, i int) Scenario {
 	sc := &C14Scenario{}
@@ -246,6 +246,27 @@ func c14Run(t *testing.T, s Scenario, src verifsim.DecisionSource, keep bool) *R
 							if s2.Shell() == nil {
 								in.Write([]byte("protocol 4.1 base64 aGVhbHRo;")) // "health": unknown for a user session, harmless
 							}
+						}
+					}
+				}
+			case "reqburst":
+				// a client that does not wait for replies: a burst of requests the
+				// server does not serve (what a resized terminal or a port scanner sends)
+				if sess, err := rs.Client.NewSession(); err == nil {
+					n := 17 + op.HoldMs%40
+					for q := 0; q < n; q++ {
+						sess.SendRequest(PickStr(q, "window-change", "env", "signal"), false, gossh.Marshal(struct{ A, B, C, D uint32 }{80, 24, 0, 0}))
+					}
+				}
+			case "shellreqs":
+				// a served session whose terminal is resized now and then
+				if err := rs.Shell(); err == nil {
+					rs.Command(catCmd)
+					n := 17 + op.HoldMs%40
+					for q := 0; q < n; q++ {
+						rs.Sess.SendRequest("window-change", false, gossh.Marshal(struct{ A, B, C, D uint32 }{80, 24, 0, 0}))
+						if q%8 == 7 {
+							w.Sleep(2 * time.Millisecond)
 						}
 					}
 				}
@@ -477,3 +498,6 @@ func init() {
 		Triggers:    map[string]func(Scenario) (Scenario, bool){},
 	})
 }
+
+// PickStr picks names[i mod len].
+func PickStr(i int, names ...string) string { return names[i%len(names)] }
